@@ -15,6 +15,7 @@ class C02(Prop):
     id = "C02"
     trace_module = "TraceClifford"
     trace_cfg = "TraceClifford.cfg"
+    suite_family = ('clifford', ('rot',))
     backends = ("py", "torch")
     chunk = 4000
     assumptions = [
@@ -85,6 +86,22 @@ class C02(Prop):
                 yield s
                 if i % 3 == 0:
                     yield {"k": "rot", "kind": "state", "g": e[2], "ins": e[1], "r": (i // 3) % (n + 1), "pkg": "py"}
+        # (c2) one wide register: N = 40, > 1024 low-weight operators rotated by dense and sparse generators
+        rng = self.rng
+        n = 40
+        ops40 = []
+        for i in range(n):
+            for j in range(i + 1, n):
+                w = [0] * n + [rng.randrange(4)]
+                w[i], w[j] = rng.randrange(1, 4), rng.randrange(1, 4)
+                ops40.append(w)
+        rng.shuffle(ops40)
+        ops40 = ops40[:1100]
+        for t in range(3):
+            g = [rng.randrange(4) if (t == 0 or rng.random() < 0.15) else 0 for _ in range(n)] + [rng.choice((0, 2))]
+            g[35] = g[35] or 2
+            yield {"k": "rot", "kind": "list", "g": g, "ins": ops40, "pkg": "py"}
+            yield {"k": "rot", "kind": "list", "g": g, "ins": ops40[:150], "pkg": "torch"}
         # (d) rotation sequences with the inverse sequence appended (N = 3..5)
         for w in self.walks:
             yield w
